@@ -17,7 +17,7 @@ from tensorly import parafac2_tensor as P2
 from tensorly.parafac2_tensor import Parafac2Tensor, _validate_parafac2_tensor
 
 from vlib import gen, ref, x_c02 as X
-from vlib.engine import SubCheck, check, Fail
+from vlib.engine import SubCheck, check, Fail, discard
 from vlib.cmp import close, as_array
 from vlib.util import tenalg_backend, TENALG_BACKENDS
 
@@ -34,7 +34,10 @@ RULE = ("Hypothesis: CP (order 2-5, sides 1-4, rank 1-4, weights none/ones/posit
         "Histories: one wrapper object (CPTensor, TuckerTensor, TTTensor, TRTensor, TTMatrix, Parafac2Tensor), 2-5 drawn "
         "operations (views, in-place / copying mode products, normalize, component assignments); after every operation all "
         "views must agree with the dense reference of the object's current components and with a model of the history "
-        "(non-trivial: at least one mutation). "
+        "(non-trivial: at least one mutation). Reject histories: a valid factor set is validated by 1-2 entry points, one "
+        "component is corrupted IN PLACE (values of the same array, in-place reshape of the same array, edit of the same "
+        "list) and every validating entry point must then raise; conversely corrupt -> rejected -> repaired in place -> "
+        "every entry point accepts and reconstructs the valid tensor. "
         "Non-trivial: order >= 3 or rank >= 2 (reject cases: always); distinct = distinct case hash.")
 ASSUMPTIONS = ["NumPy einsum (sublist form), tensordot, trace, matmul, qr are correct",
                "Hypothesis generates what its strategies describe",
@@ -1335,6 +1338,268 @@ def o_p2_hist(case):
     return _hist_labels(case)
 
 
+
+# ============================================================================
+# Reject histories: the same factor-set objects are validated more than once.
+#   valid_then_corrupt : build a VALID set, run 1-2 validating entry points (must succeed and be right),
+#                        corrupt one component IN PLACE (values of the same array object, in-place reshape of
+#                        the same array object, or an edit of the same list object) -> every validating entry
+#                        point must raise.
+#   corrupt_then_repair: corrupt in place, 1-2 entry points must raise, undo the corruption in place on the
+#                        same objects -> every entry point must accept and reconstruct the valid tensor.
+# ============================================================================
+RH_VALUE_KINDS = ["scale", "zero_column", "dup_column", "row_overwrite", "neg_inner"]
+
+
+@st.composite
+def _rh_case(draw, fam):
+    kinds = {"cp": ["add_axis", "replace_entry", "weights_axis"],
+             "tucker": ["add_axis", "replace_entry", "list_edit", "core_axis"],
+             "tt": ["add_axis", "replace_entry", "drop_axis"], "tr": ["add_axis", "replace_entry", "drop_axis"],
+             "ttm": ["add_axis", "replace_entry", "drop_axis"],
+             "parafac2": RH_VALUE_KINDS + RH_VALUE_KINDS + ["add_axis", "replace_entry", "list_edit"]}[fam]
+    return {"first": draw(first), "fam": fam, "hist": draw(st.sampled_from(["valid_then_corrupt", "corrupt_then_repair"])),
+            "n": draw(st.integers({"tr": 2, "cp": 2, "tucker": 2}.get(fam, 1), 4)), "R": draw(st.integers(1, 3)),
+            "seed": draw(gen.seeds), "corrupt": draw(st.sampled_from(kinds)), "pos": draw(st.integers(0, 3)),
+            "col": draw(st.integers(0, 2)), "delta": draw(st.sampled_from([-1, 1])),
+            "factor": draw(st.sampled_from([0.9, 1.1, 0.5, 2.0, -1.1, 1.001, 0.999])),
+            "pre": draw(st.lists(st.integers(0, 5), min_size=1, max_size=2))}
+
+
+def _ok_close(want, scale):
+    def ok(res, clause):
+        close(res, want, clause, rel=REL, scale=scale)
+    return ok
+
+
+def _rh_setup(case):
+    """-> (entries [(name, fn, ok)], corrupt() -> undo, description)   all closures share the same objects"""
+    rs = np.random.RandomState(case["seed"])
+    fam, n, R, kind, pos = case["fam"], case["n"], case["R"], case["corrupt"], case["pos"]
+    d = case["delta"]
+
+    def obj_ok(shape, rank, dense, scale):
+        def ok(res, clause):
+            check(tuple(tuple(x) if isinstance(x, tuple) else x for x in res.shape) == shape, clause + "/shape", lambda: f"{res.shape} != {shape}")
+            check((tuple(res.rank) if isinstance(rank, tuple) else res.rank) == rank, clause + "/rank", lambda: f"{res.rank} != {rank}")
+            close(res.to_tensor(), dense, clause + "/to_tensor", rel=REL, scale=scale)
+        return ok
+
+    def val_ok(shape, rank):
+        def ok(res, clause):
+            s_, r_ = res
+            check(tuple(tuple(x) if isinstance(x, tuple) else x for x in s_) == shape
+                  and (tuple(r_) if isinstance(rank, tuple) else r_) == rank, clause, lambda: f"{res} != {(shape, rank)}")
+        return ok
+
+    def add_axis(lst, k):
+        a = lst[k]
+        old = a.shape
+        a.shape = old + (1,)        # in place, same array object
+
+        def undo():
+            a.shape = old
+        return undo
+
+    def replace(lst, k, new):
+        old = lst[k]
+        lst[k] = new                # same list object
+
+        def undo():
+            lst[k] = old
+        return undo
+
+    if fam == "cp":
+        shape = [int(v) for v in rs.randint(1, 4, n)]
+        fs = [rs.standard_normal((s_, R)) for s_ in shape]
+        w = rs.standard_normal(R)
+        t = (w, fs)
+        dense = ref.cp_dense(w, fs)
+        scale = R * X.amax(w) * float(np.prod([X.amax(f) for f in fs]))
+        shp = tuple(shape)
+        entries = [("CPTensor", lambda: CPTensor(t), obj_ok(shp, R, dense, scale)),
+                   ("_validate_cp_tensor", lambda: _validate_cp_tensor(t), val_ok(shp, R)),
+                   ("cp_to_tensor", lambda: tl.cp_to_tensor(t), _ok_close(dense, scale)),
+                   ("cp_to_unfolded", lambda: tl.cp_to_unfolded(t, 0), _ok_close(ref.unfold_fast(dense, 0), scale)),
+                   ("cp_to_vec", lambda: tl.cp_to_vec(t), _ok_close(dense.reshape(-1), scale)),
+                   ("cp_norm", lambda: tl.cp_norm(t), _ok_close(np.asarray(np.sqrt(np.sum(dense ** 2))), scale * np.sqrt(dense.size) * 10))]
+        k = pos % n
+
+        def corrupt():
+            if kind == "add_axis":
+                return add_axis(fs, k)
+            if kind == "weights_axis":
+                old = w.shape
+                w.shape = (R, 1) if d > 0 else (1, R)
+
+                def undo():
+                    w.shape = old
+                return undo
+            return replace(fs, k, rs.standard_normal((shape[k], R + (d if R + d >= 1 else 1))))
+        return entries, corrupt, f"CP shape {shape} rank {R}: {kind} at {k}"
+
+    if fam == "tucker":
+        shape = [int(v) for v in rs.randint(1, 4, n)]
+        ranks = [int(v) for v in rs.randint(1, 4, n)]
+        core = rs.standard_normal(ranks)
+        fs = [rs.standard_normal((s_, r_)) for s_, r_ in zip(shape, ranks)]
+        t = (core, fs)
+        dense = ref.tucker_dense(core, fs)
+        scale = _tucker_scale(core, fs, ranks)
+        shp, rk = tuple(shape), tuple(ranks)
+        entries = [("TuckerTensor", lambda: TuckerTensor(t), obj_ok(shp, rk, dense, scale)),
+                   ("_validate_tucker_tensor", lambda: _validate_tucker_tensor(t), val_ok(shp, rk))]
+        k = pos % n
+
+        def corrupt():
+            if kind == "add_axis":
+                return add_axis(fs, k)
+            if kind == "core_axis":
+                old = core.shape
+                core.shape = old + (1,)
+
+                def undo():
+                    core.shape = old
+                return undo
+            if kind == "list_edit":
+                if d > 0:
+                    fs.append(rs.standard_normal((2, 1)))
+                    return lambda: fs.pop()
+                f = fs.pop(k)
+                return lambda: fs.insert(k, f)
+            return replace(fs, k, rs.standard_normal((shape[k], ranks[k] + (d if ranks[k] + d >= 1 else 1))))
+        return entries, corrupt, f"Tucker shape {shape} ranks {ranks}: {kind} at {k} (delta {d})"
+
+    if fam in ("tt", "tr", "ttm"):
+        shape = [int(v) for v in rs.randint(1, 4, n)]
+        oshape = [int(v) for v in rs.randint(1, 4, n)]
+        r0 = int(rs.randint(1, 4)) if fam == "tr" else 1
+        ranks = [r0] + [int(v) for v in rs.randint(1, 4, n - 1)] + [r0]
+        if fam == "ttm":
+            cores = [rs.standard_normal((ranks[i], shape[i], oshape[i], ranks[i + 1])) for i in range(n)]
+        else:
+            cores = [rs.standard_normal((ranks[i], shape[i], ranks[i + 1])) for i in range(n)]
+        dense = _chain_dense(fam, cores)
+        scale = float(np.prod([X.amax(c) * c.shape[0] for c in cores]))
+        shp = tuple(shape) + (tuple(oshape) if fam == "ttm" else ())
+        rk = tuple(ranks)
+        entries = [(_WRAP[fam].__name__, lambda: _WRAP[fam](cores), obj_ok(shp, rk, dense, scale)),
+                   (_VALID[fam].__name__, lambda: _VALID[fam](cores), val_ok(shp, rk))]
+        k = pos % n
+
+        def corrupt():
+            if kind == "add_axis":
+                return add_axis(cores, k)
+            if kind == "drop_axis":
+                a = cores[k]
+                old = a.shape
+                a.shape = (old[0], int(np.prod(old[1:-1])) * old[-1]) if fam != "ttm" else (old[0], old[1] * old[2], old[3])
+
+                def undo():
+                    a.shape = old
+                return undo
+            # a core whose left rank does not fit its neighbour / the boundary / the ring closure
+            bad = list(cores[k].shape)
+            bad[0] = bad[0] + 1
+            return replace(cores, k, rs.standard_normal(bad))
+        return entries, corrupt, f"{fam} core shapes {[c.shape for c in cores]}: {kind} at {k}"
+
+    # ---- PARAFAC2
+    I = n
+    K = int(rs.randint(1, 5))
+    if kind in ("dup_column", "neg_inner") and R < 2:
+        R = 2
+    Js = [R + int(v) for v in rs.randint(0, 4, I)]
+    A, B, C = rs.standard_normal((I, R)), rs.standard_normal((R, R)), rs.standard_normal((K, R))
+    projs = [gen.orthonormal(int(rs.randint(0, 2 ** 31 - 1)), J, R) for J in Js]
+    w = rs.standard_normal(R)
+    facs = [A, B, C]
+    t = (w, facs, projs)
+    slices = ref.parafac2_slices(w, A, B, C, projs)
+    dense = X.parafac2_padded(slices, K)
+    scale = max(R * R * X.amax(w) * X.amax(A) * X.amax(B) * X.amax(C), 1e-300)
+    shp = tuple((J, K) for J in Js)
+
+    def slices_ok(res, clause):
+        check(len(res) == I, clause + "/len")
+        for g, sl in zip(res, slices):
+            close(g, sl, clause, rel=REL, scale=scale)
+
+    def apply_ok(res, clause):
+        w2, (A2, Bs, C2) = res
+        check(len(Bs) == I, clause + "/len")
+        for b_, P_ in zip(Bs, projs):
+            close(b_, P_ @ B, clause, rel=REL, scale=max(X.amax(B) * R, 1e-300))
+    entries = [("Parafac2Tensor", lambda: Parafac2Tensor(t), obj_ok(shp, R, dense, scale)),
+               ("_validate_parafac2_tensor", lambda: _validate_parafac2_tensor(t), val_ok(shp, R)),
+               ("parafac2_to_tensor", lambda: P2.parafac2_to_tensor(t), _ok_close(dense, scale)),
+               ("parafac2_to_slices", lambda: P2.parafac2_to_slices(t), slices_ok),
+               ("parafac2_to_slice", lambda: P2.parafac2_to_slice(t, 0), _ok_close(slices[0], scale)),
+               ("apply_parafac2_projections", lambda: P2.apply_parafac2_projections(t), apply_ok)]
+    p = pos % I
+    P = projs[p]
+
+    def corrupt():
+        if kind in RH_VALUE_KINDS:
+            backup = P.copy()
+            c = case["col"] % R
+            if kind == "scale":
+                np.multiply(P, case["factor"], out=P)      # P *= factor, on the same array object
+            elif kind == "zero_column":
+                P[:, c] = 0.0
+            elif kind == "dup_column":
+                P[:, 1] = P[:, 0]
+            elif kind == "row_overwrite":
+                P[case["col"] % P.shape[0], :] = 2.0
+            else:
+                v = P[:, 1] - 0.6 * P[:, 0]
+                P[:, 1] = v / np.linalg.norm(v)
+            dev = float(np.max(np.abs(P.T @ P - np.eye(R))))
+            if dev <= 1e-3:
+                P[...] = backup
+                discard("in-place edit left the projection orthonormal")
+
+            def undo():
+                P[...] = backup      # same array object again
+            return undo
+        if kind == "add_axis":
+            return add_axis(projs, p)
+        if kind == "list_edit":
+            if d > 0:
+                projs.append(gen.orthonormal(5, R + 1, R))
+                return lambda: projs.pop()
+            q = projs.pop(p)
+            return lambda: projs.insert(p, q)
+        return replace(projs, p, gen.orthonormal(7, Js[p] + 1, R + 1))
+    return entries, corrupt, f"PARAFAC2 I={I} R={R} Js={Js}: {kind} at projection {p} (factor {case['factor']}, col {case['col']})"
+
+
+def o_reject_history(case):
+    fam = case["fam"]
+    for bk in _order(case):
+        with tenalg_backend(bk):
+            entries, corrupt, what = _rh_setup(case)
+            pre = []
+            for i in case["pre"]:
+                e = entries[i % len(entries)]
+                if e not in pre:
+                    pre.append(e)
+            if case["hist"] == "valid_then_corrupt":
+                for name, fn, ok in pre:
+                    ok(fn(), f"{fam}/reject_history/accept_valid/{name}@{bk}")
+                corrupt()
+                _must_raise([(nm, fn) for nm, fn, _ in entries],
+                            f"{fam}/reject_history/reject_after_inplace:{case['corrupt']}@{bk}", what + " after it had been validated")
+            else:
+                undo = corrupt()
+                _must_raise([(nm, fn) for nm, fn, _ in pre], f"{fam}/reject_history/reject:{case['corrupt']}@{bk}", what)
+                undo()
+                for name, fn, ok in entries:
+                    ok(fn(), f"{fam}/reject_history/accept_after_repair/{name}@{bk}")
+    return {"nontrivial": True, "labels": [f"hist={case['hist']}", f"corrupt={case['corrupt']}", f"n_pre={len(pre)}"] +
+            [f"pre={e[0]}" for e in pre]}
+
+
 # ----------------------------------------------------------------------------
 def subchecks(tier):
     S = SubCheck
@@ -1366,6 +1631,9 @@ def subchecks(tier):
         S("parafac2/wrapper", _p2_case(), o_p2_wrapper, quick=350, thorough=2500),
         S("parafac2/reject", _p2_bad_case(), o_p2_bad, quick=350, thorough=2500),
     ]
+    # validate / corrupt in place / validate again (and corrupt / reject / repair in place / accept)
+    subs += [S(f"{fam}/reject_history", _rh_case(fam), o_reject_history, quick=(250 if fam == "parafac2" else 120),
+               thorough=(2500 if fam == "parafac2" else 1200)) for fam in ("cp", "tucker", "tt", "tr", "ttm", "parafac2")]
     # histories on wrapper objects (views must stay consistent after every operation of a sequence)
     subs += [
         S("cp/history", _cp_hist_case(), o_cp_hist, quick=250, thorough=2500),
